@@ -1,5 +1,7 @@
 #!/usr/bin/env python3
-"""Regenerates the go -overlay for the K5/C33 check from the CURRENT /repo sources.
+"""Regenerates the go -overlay for the K5/C33 check from the CURRENT sources of the repository
+under test (VERIF_REPO, exported by run.sh = the directory h/go.mod replaces the ledger module
+by; /repo when unset).
 
   genoverlay.py <outdir> [mutation]
 
@@ -13,11 +15,11 @@
 (c) detection self-test only (K5_MUTATION / 2nd argument, see DESIGN §8): a mutated copy of
     pipeline.go (a,b,c,d,f), manager.go (e) or drivers/batcher.go (g,h) is put in the overlay. Never used by ./check;
     run.sh keeps such builds in their own directory and binary.
-Nothing under /repo is written.
+Nothing under the repository is written.
 """
 import json, os, re, sys
 
-REPO = os.environ.get("VERIF_REPO", "/repo")
+REPO = os.environ.get("VERIF_REPO") or "/repo"
 out = sys.argv[1]
 mutation = sys.argv[2] if len(sys.argv) > 2 else os.environ.get("K5_MUTATION", "")
 here = os.path.dirname(os.path.abspath(__file__))
